@@ -315,6 +315,16 @@ func c05(r *Run) {
 		s.Visited += ss.Visited
 		r.obW("C05.R7:entry-lock-not-leaked", "the lock the task starts with is released or retired on every normal path", ro.task, nil, wit, "unlock or closeCallback on every path")
 	}
+	// (b') the task gives up after unlock(processing) only on an edge where it observed the connection ACTIVE
+	for i, u := range findIns(ro.task, func(i ssa.Instruction) bool {
+		_, isC := i.(*ssa.Call)
+		return isC && isKeyCall(i, ro.unlock, kP)
+	}) {
+		ss := &Search{Fn: ro.task, Stop: func(x ssa.Instruction) bool { return isKeyCall(x, ro.lock, kP) || px.Must(x, "closecb") }, CutEdge: cutOn(activeFact(ro))}
+		wit := ss.Find([]Start{After(u)}, nil, true)
+		s.Visited += ss.Visited
+		r.obW(fmt.Sprintf("C05.R7:exit-only-if-active#%d", i+1), "after unlock(processing) the task exits without re-trying the lock only on an edge where it observed closing==none: any close (user or poller) that failed to take the lock meanwhile is helped", ro.task, u, wit, "trylock(processing), or an active observation, on every path to exit")
+	}
 	// (d) the panic path: the active branch must end in Close (closeBy + runner attempt)
 	{
 		ss := &Search{Fn: ro.taskPanic, Stop: func(x ssa.Instruction) bool { return px.Must(x, "closecb") }}
